@@ -415,7 +415,7 @@ theorem validateP2P_noPanic (x : Ctx) (hc : x.cfg.WF) (st : State) (p : P2PInput
     intro c' hc'
     simp only [List.mem_cons, List.mem_nil_iff, or_false] at hc'
     rcases hc' with h | h | h | h | h <;> subst h <;> exact noPanic_rejectIf _ _
-  · exact validate_noPanic x hc st { p.inner with envSig := if forkActive x.cfg p.inner.now then p.inner.envSig else .none }
+  · exact validate_noPanic x hc st { p.inner with envSig := if forkActive x.cfg p.inner.now then p.sig.toEnv else .none }
       (fun sh hsh => hi sh hsh) s
 
 /-! ## size limits are checked before the decoded message is looked at -/
